@@ -106,8 +106,8 @@ def dtype_cases():
 def run(tier, seed):
     chk = Check("C14", tier, seed, "other")
     try:
-        from ..kernels import c14_update
-        for k in c14_update.KERNELS:
+        from ..kernels import c14_update, c14_dataflow
+        for k in c14_update.KERNELS + c14_dataflow.KERNELS_C14:
             chk.add_kernel(run_kernel(k, tier))
     except ImportError:
         pass
